@@ -37,6 +37,8 @@ structure Settled (s : St) (names : List Named) : Prop where
   obj : ∀ n ∈ names, ∃ o ∈ s.objs, key o = nkey n ∧ o.annot = n.d.rname ∧ o.ctrl = .xr ∧
     o.content = n.d.content ∧ o.ssa = true
   refs : s.refs = refsOf names
+  /-- the composer's field manager has applied the references before -/
+  applied : s.xrApplied = true
 
 /-- the object of a settled entry -/
 theorem Settled.find {s : St} {names : List Named} (h : Settled s names) (n : Named) (hn : n ∈ names) :
@@ -251,7 +253,7 @@ theorem quiescent_fn {s : St} {names : List Named} (h : Settled s names) (ch : C
   rw [hund, hgc]
   simp only [gcFn, wcall]
   -- the references are already the ones the composer would write
-  have hpatch : exec s (.patchRefs ch.ver (refsOf names)) = (s, .ok) := by simp [exec, h.refs, hv]
+  have hpatch : exec s (.patchRefs ch.ver (refsOf names)) = (s, .ok) := by simp [exec, h.refs, hv, h.applied]
   rw [runOk_call, hpatch]
   simp only []
   rw [runOk_applyFn_settled h _ _ _ true (fun n hn => (hc.apply _ _).mp hn)]
